@@ -26,7 +26,7 @@ import (
 func init() {
 	Register("evmacct", runEvmAcct)
 	RegisterPlan(Plan{Prop: "C19", Engine: "evmacct", Quick: 64, Thorough: 1600, Level: "exploration", MinCases: 60,
-		Rule: "per history 90-160 Ethereum transactions (legacy / access-list / dynamic-fee) from rich, poor and empty senders: gas limits 20 999 ... block limit + 1, prices and tips around the base fee and the minimum gas price, values 0 ... balance + 1, nonces current / +1 / -1; targets: EOAs, contract creation (valid, reverting, oversized init code), a value-forwarding contract that afterwards returns / reverts / burns all gas / writes storage, the same in front of the assets precompile (the contract is the configured gateway), the store-writer contract (ok / revert), precompiles directly; several per block and per sender, blocks with and without a gas limit. Oracle per transaction: executed => nonce +1, sender pays value (if successful) + gasUsed x effective price, fee collector receives gasUsed x effective price, ceil(multiplier x limit) <= gasUsed <= limit, all balance deltas sum to zero; failed execution => no value moved, EVM storage/code and all restaking stores byte-identical; rejected by the admission checks => every balance and nonce unchanged; executed => the admission conditions held on the pre-state. Distinct = <type, target class, outcome, admission class>."})
+		Rule: "per history 90-160 Ethereum transactions (legacy / access-list / dynamic-fee) from rich, poor and empty senders: gas limits 20 999 ... block limit + 1, prices and tips around the base fee and the minimum gas price, values 0 ... balance + 1, nonces current / +1 / -1; targets: EOAs, contract creation (valid, reverting, oversized init code), a value-forwarding contract that afterwards returns / reverts / burns all gas / writes storage, the same in front of the assets precompile (the contract is the configured gateway), the store-writer contract (ok / revert), precompiles directly; several per block and per sender, blocks with and without a gas limit; every twelfth transaction carries two Ethereum messages of two different senders (own value + 21 000 x own price each, or nothing moves). Oracle per transaction: executed => nonce +1, sender pays value (if successful) + gasUsed x effective price, fee collector receives gasUsed x effective price, ceil(multiplier x limit) <= gasUsed <= limit, all balance deltas sum to zero; failed execution => no value moved, EVM storage/code and all restaking stores byte-identical; rejected by the admission checks => every balance and nonce unchanged; executed => the admission conditions held on the pre-state. Distinct = <type, target class, outcome, admission class>."})
 }
 
 type evmTarget struct {
